@@ -25,6 +25,7 @@ type c18Plan struct {
 	cs         c18Case
 	admin      []int // current admin per contract (-1 none)
 	registered map[int]bool
+	regBy      map[int]int // contract id -> signer that (probably) registered it
 }
 
 func (p *c18Plan) nC() int { return len(p.cs.Contracts) }
@@ -166,6 +167,9 @@ func (p *c18Plan) regTx(ci int, valid bool) c18Step {
 		}
 	}
 	p.registered[c] = true
+	if _, seen := p.regBy[c]; !seen {
+		p.regBy[c] = signer
+	}
 	return c18Step{Op: "tx", Signer: signer, Fee: p.fee(), Msgs: []c18Msg{{K: "reg", C: c, W: w}}}
 }
 
@@ -259,6 +263,37 @@ func (p *c18Plan) manageTx() c18Step {
 	return c18Step{Op: "tx", Signer: signer, Fee: p.fee(), Msgs: msgs}
 }
 
+// formerAdmin: the account that registered a fee share loses control of the contract (admin moved or cleared) and
+// then tries to redirect or cancel the fee share; afterwards the contract is executed.
+func (p *c18Plan) formerAdmin() []c18Step {
+	for try := 0; try < 6; try++ {
+		ci := p.r.Intn(p.nC())
+		c := idContract0 + ci
+		old, ok := p.regBy[c]
+		if !ok || !p.registered[c] || p.authority(ci) != old {
+			continue
+		}
+		na := -1
+		if p.admin[ci] >= 0 || p.r.Chance(2, 3) {
+			na = idSigner0 + (old-idSigner0+1+p.r.Intn(nSigners-1))%nSigners
+			if p.admin[ci] >= 0 && p.r.Chance(1, 4) {
+				na = -1 // cleared: control falls to the creator
+			}
+		}
+		if na == -1 && p.cs.Contracts[ci].Creator == old {
+			na = idSigner0 + (old-idSigner0+1)%nSigners
+		}
+		p.admin[ci] = na
+		m := c18Msg{K: "upd", C: c, W: p.anyWithdrawer(ci)}
+		if p.r.Chance(1, 3) {
+			m = c18Msg{K: "cancel", C: c}
+		}
+		return []c18Step{{Op: "admin", C: c, Admin: na}, {Op: "tx", Signer: old, Fee: p.fee(), Msgs: []c18Msg{m}},
+			{Op: "tx", Signer: p.anySigner(), Fee: p.fee(), Msgs: []c18Msg{p.execMsg(c, old), p.execMsg(p.anyContract(), old)}}}
+	}
+	return []c18Step{p.adminStep()}
+}
+
 func (p *c18Plan) adminStep() c18Step {
 	ci := p.r.Intn(p.nC())
 	na := -1
@@ -277,7 +312,7 @@ func (p *c18Plan) adminStep() c18Step {
 }
 
 func genC18Case(r *Rng) c18Case {
-	p := &c18Plan{r: r, registered: map[int]bool{}}
+	p := &c18Plan{r: r, registered: map[int]bool{}, regBy: map[int]int{}}
 	n := r.Range(2, 5)
 	reflectAt := -1
 	if r.Chance(1, 2) {
@@ -322,7 +357,7 @@ func genC18Case(r *Rng) c18Case {
 		if malformed {
 			w = []int{4, 4, 2, 1, 1, 2}
 		} else {
-			w = []int{10, 3, 1, 1, 1, 1}
+			w = []int{10, 3, 2, 1, 1, 1}
 		}
 		switch r.Pick(w...) {
 		case 0:
@@ -330,7 +365,11 @@ func genC18Case(r *Rng) c18Case {
 		case 1:
 			p.cs.Steps = append(p.cs.Steps, p.manageTx())
 		case 2:
-			p.cs.Steps = append(p.cs.Steps, p.adminStep())
+			if p.r.Chance(2, 3) {
+				p.cs.Steps = append(p.cs.Steps, p.formerAdmin()...)
+			} else {
+				p.cs.Steps = append(p.cs.Steps, p.adminStep())
+			}
 		case 3:
 			p.cs.Steps = append(p.cs.Steps, c18Step{Op: "block"})
 		case 4:
